@@ -25,6 +25,8 @@ var c15Stems = []string{"x", "y", "page", "_layout", ".draft", "a.b", "q_templ",
 const c15Good = "package p\n\ntempl %s(s string) {\n\t<p class=\"c\">{ s } %s</p>\n}\n"
 const c15GoodNoExpr = "package p\n\ntempl %s() {\n\t<hr/>\n\t<b>%s</b>\n}\n"
 const c15Unparseable = "package p\n\ntempl %s() {\n\t<p>%s\n}\n"
+const c15Prose = "package p\n\nübersicht der seiten %s\n\ntempl T%s() {\n\t<p>x</p>\n}\n" // invalid Go: the error is at column 1 of a line that starts with a multi-byte character
+
 const c15BadGo = "package p\n\nfunc broken%s( {\n\ntempl T%s() {\n\t<p>x</p>\n}\n"
 
 type c15Tree map[string]string // relative slash path -> content
@@ -214,6 +216,8 @@ var c15Fixed = []struct {
 	{3, [][2]string{{"a.templ", "badgo"}, {"b.templ", "unparseable"}, {"c.templ", "unparseable"}, {"y/k.templ", "plain"}, {"z.templ", "good"}}},
 	{1, [][2]string{{"m/a.templ", "good"}, {"m/b.templ", "badgo"}, {"m/c.templ", "good"}, {"n.templ", "unparseable"}, {"o.templ", "good"}}},
 	{2, [][2]string{{"pages.templ/inner.templ", "good"}, {"pages_templ.go", "stale"}, {"q.templ", "plain"}}},
+	{1, [][2]string{{"a.templ", "prose"}, {"b.templ", "good"}, {"c.templ", "good"}, {"d/e.templ", "good"}, {"f.templ", "plain"}}},
+	{8, [][2]string{{"a.templ", "good"}, {"b.templ", "prose"}, {"c.templ", "good"}, {"d/e.templ", "plain"}, {"d/f.templ", "good"}, {"g.templ", "badgo"}, {"h.templ", "good"}}},
 	{2, [][2]string{{"a.templ", "good@epoch"}, {"a_templ.go", "stale"}, {"b.templ", "plain@old"}, {"c.templ", "good"}, {"c_templ.go", "longstale"}}},
 }
 
@@ -260,7 +264,7 @@ func runC15(e *emitter, tier string, seed uint64) {
 					f[1] = kind
 					age[f[0]] = map[string]time.Duration{"epoch": c15AgeEpoch, "old": c15AgeOld}[at]
 				}
-				tree[f[0]] = fmt.Sprintf(map[string]string{"good": c15Good, "plain": c15GoodNoExpr, "unparseable": c15Unparseable, "badgo": c15BadGo, "stale": "package p\n\n// stale %s %s\n",
+				tree[f[0]] = fmt.Sprintf(map[string]string{"good": c15Good, "plain": c15GoodNoExpr, "unparseable": c15Unparseable, "badgo": c15BadGo, "prose": c15Prose, "stale": "package p\n\n// stale %s %s\n",
 					"longstale": "package p\n\n// stale %s %s\n" + strings.Repeat("// left over from an earlier, longer version of the template\n", 200)}[f[1]], id, id)
 			}
 			workers, keep, lazy, spell = c15Fixed[i].workers, false, false, 0
